@@ -188,6 +188,16 @@ func (p *Pipe) AddIngress(namespace, name string, ann map[string]string, rules [
 // AddIngressPT is AddIngress with the pathType of every path (Prefix, Exact or
 // ImplementationSpecific).
 func (p *Pipe) AddIngressPT(namespace, name string, ann map[string]string, rules []Rule, pathType string) {
+	p.Cache.IngList = append(p.Cache.IngList, buildIngress(namespace, name, ann, rules, pathType))
+}
+
+// AddIngressLater registers an Ingress as an `added` notification: the next Sync is a
+// partial one that parses it on top of the current state.
+func (p *Pipe) AddIngressLater(namespace, name string, ann map[string]string, rules []Rule, pathType string) {
+	p.Cache.Changed.IngressesAdd = append(p.Cache.Changed.IngressesAdd, buildIngress(namespace, name, ann, rules, pathType))
+}
+
+func buildIngress(namespace, name string, ann map[string]string, rules []Rule, pathType string) *networking.Ingress {
 	ing := &networking.Ingress{
 		ObjectMeta: metav1.ObjectMeta{Namespace: namespace, Name: name, Annotations: ann},
 	}
@@ -210,7 +220,7 @@ func (p *Pipe) AddIngressPT(namespace, name string, ann map[string]string, rules
 				Name: r.Service, Port: networking.ServiceBackendPort{Number: int32(r.Port)}}},
 		})
 	}
-	p.Cache.IngList = append(p.Cache.IngList, ing)
+	return ing
 }
 
 // Sync runs the real converters (full sync on the first call).
